@@ -20,6 +20,7 @@ const liveBase = uint64(8) // virtual time units of the view-0 timeout
 
 type StabInj struct {
 	AtFiring int     `json:"at"`   // injected after this many timer firings (0 = right at stabilisation)
+	Repeat   bool    `json:"repeat,omitempty"` // ... and again after every later firing (a persistent adversary)
 	Spec     ByzSpec `json:"spec"` // Spec.V is an OFFSET added to the highest view in D at injection time; Spec.H is ignored
 	AsSel    int     `json:"as_sel"`
 }
@@ -190,7 +191,7 @@ func RunLive(c LiveCase) (*World, LiveResult) {
 	}
 	inject := func(firing int) {
 		for _, in := range c.Inj {
-			if in.AtFiring != firing {
+			if in.AtFiring != firing && !(in.Repeat && firing > in.AtFiring) {
 				continue
 			}
 			var owned []int
